@@ -446,9 +446,9 @@ theorem inv3_applyOp {s : St} (h : Inv3 s) (o : Op) (hno : ∀ l, o ≠ .limit l
       (St.teamQuit { s with joined := true, started := false, limit := 0 }).1.pmin ≤
         (St.teamQuit { s with joined := true, started := false, limit := 0 }).1.pmax
     rw [this.1, this.2]; exact h.poolOK
-  | pCall t r =>
+  | pCall t r cb =>
     refine inv3_of_pres2 h h2.inv ?_
-    show Pres2 s (s.poolCall t r)
+    show Pres2 s (s.poolCall t r cb)
     unfold St.poolCall
     split
     · exact pres2_refl s
